@@ -17,7 +17,7 @@ from .values import (V, VBool, VBound, VClosure, VInt, VMatch, VNone, VObj, VOpa
 BUILTIN_NAMES = {
     "len", "isinstance", "cast", "str", "int", "bool", "list", "tuple", "next", "any", "all",
     "enumerate", "reversed", "range", "print", "getattr", "hasattr", "id", "min", "max", "zip", "set",
-    "implies", "old", "iff", "repr", "heap_unchanged", "type", "sorted", "dict", "bytes", "float", "object",
+    "implies", "old", "iff", "repr", "heap_unchanged", "alloc_at_entry", "type", "sorted", "dict", "bytes", "float", "object",
 }
 EXC_NAMES = {
     "ValueError", "KeyError", "TypeError", "IndexError", "AttributeError", "AssertionError",
@@ -25,7 +25,7 @@ EXC_NAMES = {
     "FileNotFoundError", "RuntimeError", "LookupError", "SyntaxError", "ImportError",
 }
 
-TAGS = {"builtin", "exc", "excinst", "func", "class", "extmod", "extattr", "ext", "repomod", "classattr",
+TAGS = {"opaqueset", "generator", "builtin", "exc", "excinst", "func", "class", "extmod", "extattr", "ext", "repomod", "classattr",
         "args", "emptylist", "enumerate", "reversed", "range", "rsplit1", "idset", "modconst", "typeof",
         "ctxmgr", "dictobj", "method"}
 SENTINELS = {"linebreak": 1, "empty_line": 2, "comma": 3}
@@ -55,6 +55,7 @@ class Evaluator:
         self.old_heap = None
         self.entry_env = None
         self.depth = 0
+        self.call_ordinals = {}
 
     # ------------------------------------------------------------------ helpers
     def oos(self, node, what):
@@ -573,6 +574,8 @@ class Evaluator:
                 a = VInt(z3.If(a.t, I(1), I(0)))
             if isinstance(b, VBool):
                 b = VInt(z3.If(b.t, I(1), I(0)))
+            if isinstance(a, VRef) and isinstance(b, VInt) and self.pure:
+                a = VInt(a.t)
             if isinstance(a, VInt) and isinstance(b, VInt):
                 return {ast.Lt: a.t < b.t, ast.LtE: a.t <= b.t, ast.Gt: a.t > b.t, ast.GtE: a.t >= b.t}[type(op)]
             self.oos(node, "ordering on non-ints")
@@ -607,6 +610,8 @@ class Evaluator:
             return self.heap.list_contains(container, item, node)
         if isinstance(container, VPy) and isinstance(container.obj, tuple) and container.obj and container.obj[0] == "idset":
             return self.heap.idset_contains(container, item)
+        if isinstance(container, VPy) and container.obj == ("opaqueset",):
+            return self.path.fresh("inset", z3.BoolSort())
         self.oos(node, f"`in` on {type(container).__name__}")
 
     # -- subscripts
@@ -752,7 +757,30 @@ class Evaluator:
             if not (isinstance(k, ast.Constant) and isinstance(k.value, str)):
                 self.oos(node, "dict literal with non-constant key")
             d[k.value] = self.ev(v, env)
+        from specs import heap_schema as HS
+
+        if d and all(k in HS.FIELDS for k in d) and any(isinstance(self.lift(v), (VRef, VNone)) for v in d.values()):
+            return self.heap.new_dict(d, node)
         return VPy(("dictobj", d))
+
+    def ev_SetComp(self, node, env):
+        return VPy(("opaqueset",))
+
+    def ev_GeneratorExp(self, node, env):
+        return VPy(("generator",))
+
+    def ev_ListComp(self, node, env):
+        """[e for x in heap_list if c]: over-approximated by a fresh list whose length is bounded by the
+        source's (element values are not constrained) - sound for proofs, useless for refutation."""
+        if len(node.generators) != 1:
+            self.oos(node, "nested list comprehension")
+        src = self.lift(self.ev(node.generators[0].iter, env))
+        if isinstance(src, VPy) and src.obj == ("emptylist",):
+            return src
+        if not isinstance(src, VRef):
+            self.oos(node, "list comprehension over a non-heap iterable")
+        self.ctx.assumptions_used.add("list comprehensions over heap lists are over-approximated (fresh list, length <= source length)")
+        return self.heap.fresh_list_upto(self.heap.llen(src))
 
     def external_call(self, key, ext, node, env):
         """Call by an *assumed* contract (listed under assumptions)."""
@@ -768,15 +796,29 @@ class Evaluator:
                                       f"returns {ext.returns}, ensures {ext.ensures}, may raise {sorted(ext.exsures)}"
                                       + (f" ({ext.note})" if ext.note else ""))
         sub = self.pure_eval()
+        ca = self.site_asserts(key, node)
+        if ca and not self.pure:
+            for cl in ca:
+                t = sub.truth(sub.ev(ast.parse(cl, mode="eval").body, cenv))
+                self.ctx.oblige(self.path, "assert@callsite", f"{key}: {cl} @L{getattr(node, 'lineno', 0)}", t, node)
         outcomes = ["ok"] + sorted(ext.exsures)
         k = 0 if self.pure else self.path.choose(len(outcomes))
         out = outcomes[k]
+        if getattr(ext, "modifies", None) or getattr(ext, "allocates", False):
+            keep = self.heap.snapshot_locations(getattr(ext, "preserves", []), cenv)
+            self.heap.havoc_frame(ext, cenv, sub)
+            self.heap.restore_locations(keep)
+            if keep:
+                self.ctx.assumptions_used.add(f"external call `{key}` assumed not to touch the caller's fresh objects {ext.preserves}")
         if out != "ok":
             for cl in ext.exsures[out]:
                 self.path.assume(sub.truth(sub.ev(ast.parse(cl, mode="eval").body, cenv)), check=False)
             self.path.assume(z3.BoolVal(True))
             raise self.E.Raised(out, node)
-        res = self.fresh_value(ext.returns, f"ext:{key}@L{getattr(node, 'lineno', 0)}") if ext.returns is not None else VNone()
+        if getattr(ext, "fresh", False) and ext.returns is not None and ext.returns.name in ("Ref", "ListRef"):
+            res = self.heap.fresh_object(ext.returns.args[0] or ("list" if ext.returns.name == "ListRef" else "OtherExpression"))
+        else:
+            res = self.fresh_value(ext.returns, f"ext:{key}@L{getattr(node, 'lineno', 0)}") if ext.returns is not None else VNone()
         cenv.vars["result"] = res
         for cl in ext.ensures:
             self.path.assume(sub.truth(sub.ev(ast.parse(cl, mode="eval").body, cenv)), check=False)
@@ -803,6 +845,9 @@ class Evaluator:
         exts = self.ctx.contract.externals
         if exts and not self.pure:
             key = ast.unparse(f)
+            ordn = self.call_ordinals.get(id(node))
+            if ordn is not None and f"{key}#{ordn[1]}" in exts:
+                return self.external_call(key, exts[f"{key}#{ordn[1]}"], node, env)
             if key in exts:
                 return self.external_call(key, exts[key], node, env)
         # special forms that must not evaluate all arguments eagerly
@@ -974,6 +1019,7 @@ class Evaluator:
         sub.old_heap = self.old_heap
         sub.entry_env = self.entry_env
         sub.closure_fx = self.closure_fx
+        sub.call_ordinals = self.call_ordinals
         return sub
 
     def call_value(self, fv, args, kwargs, node, env):
@@ -1030,10 +1076,18 @@ class Evaluator:
                 return VInt(I(0))
         if name == "iff":
             return VBool(self.truth(args[0]) == self.truth(args[1]))
+        if name == "alloc_at_entry":
+            return VInt(self.path.alloc0)
         if name == "heap_unchanged":
             old = self.old_heap or {}
             cur = self.path.heap
-            eqs = [cur[f] == old[f] for f in cur if f in old and f != "$alloc" and not z3.eq(cur[f], old[f])]
+            # every location of every object that existed at entry is unchanged (fresh objects are free)
+            r = z3.Const("r!hu", z3.IntSort())
+            eqs = []
+            for f in cur:
+                if f in old and f != "$alloc" and not z3.eq(cur[f], old[f]):
+                    eqs.append(z3.ForAll([r], z3.Implies(z3.And(r >= 0, r < self.path.alloc0), cur[f][r] == old[f][r]),
+                                         patterns=[cur[f][r]]))
             return VBool(z3.And(*eqs) if eqs else z3.BoolVal(True))
         if name == "implies":
             return VBool(z3.Implies(self.truth(args[0]), self.truth(args[1])))
